@@ -69,6 +69,9 @@ static const profile_t PROFILES[] = {
       0xf, (1u << P_T) | (1u << P_DOT), (1u << T_T), (1u << K_FD) | (1u << K_TMR), 0x7 },
     { "C04F", 2, G_MSG | G_PILL | G_ARM | G_QUIT | G_LIFE,                      RL_BASE | R_PS | R_FREE | R_PILL | R_EV, 1, "01000100" "07000100" "07010100" "04000000", 1, 0, 1,
       (1u << A_DEREG) | (1u << A_STOP), (1u << CB_EVT), 0, 0 },
+    /* the same on a NON persistent context: the last module deregistering itself (also from a handler run by the final flush) releases the context */
+    { "C04N", 2, G_MSG | G_PILL | G_ARM | G_QUIT | G_LIFE,                      RL_BASE | R_PS | R_FREE | R_PILL | R_EV, 1, "01000000" "07000100" "07010100" "04000000", 1, 0, 1,
+      (1u << A_DEREG) | (1u << A_STOP), (1u << CB_EVT), 0, 0 },
     { "SMOKE", 2, G_LIFE | G_REG | G_MSG | G_QUIT,                                          RL_BASE | R_EV | R_PS,              0, "01000100", 1, 0, 1, 0, 0, 0, 0 },
 };
 #define NPROFILES ((int)(sizeof PROFILES / sizeof *PROFILES))
